@@ -41,7 +41,10 @@ def gen_case(rng, cid):
         ix, iy = (rng.choice([1, 1, 2, -1, -2]), rng.choice([1, 1, 2, -1])) if valid else (rng.choice(INTS), rng.choice(INTS))
         ox, oy = (rng.choice([0, 0, 1, 2]), rng.choice([0, 0, 1])) if valid else (rng.choice(INTS), rng.choice(INTS))
         lx, ly = ((n, m) if t == 'N' else (m, n))
-        args['A'] = operand(rng, m, n, 'ds', tcs, bad)
+        mA, nA2 = m, n
+        if valid and m and n and rng.random() < 0.4: mA, nA2 = m + rng.randint(0, 2), n + rng.randint(0, 2)      # a leading block (explicit m, n)
+        args['A'] = operand(rng, mA, nA2, 'ds', tcs, bad)
+        if (mA, nA2) != (m, n): args['m'] = {'int': m}; args['n'] = {'int': n}
         args['x'] = {'mat': [args['A'].get('mat', args['A'].get('sp'))[0], ox + max(0, (lx - 1) * abs(ix) + 1 if lx else 0), 1]}
         args['y'] = {'mat': [args['A'].get('mat', args['A'].get('sp'))[0], oy + max(0, (ly - 1) * abs(iy) + 1 if ly else 0), 1]}
         if not valid:
@@ -57,7 +60,8 @@ def gen_case(rng, cid):
         if not valid:
             opt('m', {'int': rng.choice(INTS)}, 0.4); opt('n', {'int': rng.choice(INTS)}, 0.4); opt('offsetA', {'int': rng.choice(INTS)}, 0.4)
         else:
-            opt('m', {'int': m}, 0.2); opt('n', {'int': n}, 0.2)
+            if 'm' not in args: opt('m', {'int': m}, 0.2)
+            if 'n' not in args: opt('n', {'int': n}, 0.2)
     elif r == 'syrk':
         t = rng.choice('NT')
         args['A'] = operand(rng, *((n, k) if t == 'N' else (k, n)), 'ds', tcs, bad); args['C'] = operand(rng, n, n, 'ds', tcs, bad); pos = ['A', 'C']
@@ -66,9 +70,12 @@ def gen_case(rng, cid):
     elif r == 'symv':
         ix, iy = (rng.choice([1, 1, 2, -1]), rng.choice([1, 1, 2, -1])) if valid else (rng.choice(INTS), rng.choice(INTS))
         ox, oy = (rng.choice([0, 0, 1]), rng.choice([0, 0, 2])) if valid else (rng.choice(INTS), rng.choice(INTS))
-        args['A'] = operand(rng, n, n, 'ds', tcs, bad)
+        nA = n
+        if valid and n and rng.random() < 0.4: nA = n + rng.randint(1, 2)          # the leading n x n block of a larger matrix (explicit n)
+        args['A'] = operand(rng, nA, nA, 'ds', tcs, bad)
         tc = args['A'].get('mat', args['A'].get('sp'))[0]
         args['x'] = {'mat': [tc, ox + ((n - 1) * abs(ix) + 1 if n else 0), 1]}; args['y'] = {'mat': [tc, oy + ((n - 1) * abs(iy) + 1 if n else 0), 1]}
+        if nA != n: args['n'] = {'int': n}
         if not valid:
             for v in ('x', 'y'):
                 if rng.random() < 0.4: args[v]['mat'][1] = max(0, args[v]['mat'][1] + rng.choice([-2, -1, 1]))
